@@ -185,6 +185,7 @@ def fw_specs_more():
                                              steps="steps")],
                          opaque=dict(ro, red="int", green="int", blue="int", duration_ms="int", steps="int"), dev="rgbfade", op="fade"),
         "dc_set_speed": dict(decls=mot, nodes=[N("DCMotorSetSpeed", name="m", speed="value")], opaque=dict(mo, value="float"), dev="dc", op="set_speed"),
+        "dc_backward": dict(decls=mot, nodes=[N("DCMotorBackward", name="m", speed="value")], opaque=dict(mo, value="float"), dev="dc", op="backward"),
         "dc_stop": dict(decls=mot, nodes=[N("DCMotorStop", name="m")], opaque=dict(mo), dev="dc", op="stop"),
         "dc_coast": dict(decls=mot, nodes=[N("DCMotorCoast", name="m")], opaque=dict(mo), dev="dc", op="coast"),
         "dc_invert": dict(decls=mot, nodes=[N("DCMotorInvert", name="m")], opaque=dict(mo), dev="dc", op="invert"),
@@ -264,6 +265,11 @@ def dc_specs(SP, INV, MODE, pins):
     out["set_speed"] = dict(requires=[], ensures=[f"{SP} == {s1}", f"{INV} == old({INV})", f"E == {e}", f"same_map(cur, {cm})"],
                             mode=f"{MODE} == ite({applied(s1, f'old({INV})')} == 0, 'coast', 'drive')",
                             tiny=f"{s1} != 0 and abs({s1}) * 255 + 0.5 < 1")
+    sb = clamp("(-abs(value))")
+    e, cm = drive(applied(sb, f"old({INV})"))
+    out["backward"] = dict(requires=[], ensures=[f"{SP} == {sb}", f"{INV} == old({INV})", f"E == {e}", f"same_map(cur, {cm})"],
+                           mode=f"{MODE} == ite({applied(sb, f'old({INV})')} == 0, 'coast', 'drive')",
+                           tiny=f"{sb} != 0 and abs({sb}) * 255 + 0.5 < 1")
     e, cm = chain3(pins, ("255", "255", "0"))
     out["stop"] = dict(requires=[], ensures=[f"{SP} == 0", f"{INV} == old({INV})", f"{MODE} == 'brake'", f"E == {e}", f"same_map(cur, {cm})"])
     e, cm = chain3(pins, ("0", "0", "0"))
@@ -315,8 +321,11 @@ def build_more(reg, specs, info_needed):
              ensures=["result == ite(value > 1, 1.0, ite(value < -1, -1.0, real(value)))"])
     reg.unit("DCMotor._apply_speed", DCF, public=False, inline=True)
     DM = ["self._speed", "self._mode", "self._applied_speed"]
-    for op, params in (("set_speed", {"value": "int|real"}), ("stop", {}), ("coast", {}), ("invert", {})):
+    for op, params in (("set_speed", {"value": "int|real"}), ("stop", {}), ("coast", {}), ("invert", {}), ("backward", {"speed": "int|real"})):
         sp = ds[op]
+        if op == "backward":
+            # the host parameter is called `speed`; the shared specification is written over `value`
+            sp = {k: ([c.replace("value", "speed") for c in v] if isinstance(v, list) else v.replace("value", "speed")) for k, v in sp.items()}
         ens = list(sp["ensures"]) + ([sp["mode"]] if "mode" in sp else [])
         tr = [x for x in ens if x.startswith("E == ")][0][5:]
         cmx = [x for x in ens if x.startswith("same_map(cur, ")][0][len("same_map(cur, "):-1]
@@ -414,7 +423,7 @@ def build():
             raise RuntimeError(f"emitter failed on fragment {name}: {emitted2[name]['error']}")
         tr = H.translate_fragment(name, emitted2[name]["cpp"], sp["opaque"])
         texts2.append(tr["py"])
-        if sp["dev"] == "dc" and sp["op"] in ("set_speed", "invert"):
+        if sp["dev"] == "dc" and sp["op"] in ("set_speed", "invert", "backward"):
             # the same translated text under a second name, for the unrestricted mode clause (known finding)
             texts2.append(tr["py"].replace(f"def {tr['pyname']}(", f"def {tr['pyname']}__mode_all("))
         info[name] = tr
